@@ -31,6 +31,10 @@ THEOREMS = [
     "Verif.C06.scan_crop_commutes_with_frames",
     "Verif.C06.scan_slice_slice",
     "Verif.C06.time_to_frame_start",
+    "Verif.C06.scan_slice_timestamps",
+    "Verif.C06.scan_slice_keeps_fast_step",
+    "Verif.C06.scan_pixel_time_of_fast_step",
+    "Verif.C06.scan_pixel_counts",
 ]
 RULE = (
     "kymographs and scans built from generated info waves (P<=5 pixels, <=6 lines/frames, k<=3 samples per pixel, "
